@@ -215,13 +215,7 @@ def c11_stage(scratch, tier, log):
         for m in ("process", "process_partial_into_buffer", "process_partial"):
             sig, body, l0, _ = rp.find_fn(lib, m, None)
             c11_function("Resampler", m, body, obs, "channel_frame")
-        sig, body, l0, _ = rp.find_fn(lib, "validate_buffers", None)
-        txt = rp.show(body)
-        n_filter = len(re.findall(r"filter\(", " ".join(rp.show(st) for st in body[1])))
-        loops = [n for n in rp.walk(body) if n[0] == "for"]
-        okv = all("filter(|( chan , _ )| mask[*chan])" in rp.show(l[2]).replace("  ", " ") or "mask[*chan]" in rp.show(l[2]) for l in loops) and len(loops) == 2
-        obs.append(ob("C11.validate_buffers.inspects_only_active_channels", DISCHARGED if okv else FAILED, "validate_buffers",
-                      "" if okv else "a length loop of validate_buffers is not filtered by the mask: masked channels could no longer be passed as empty slices"))
+        # (that validate_buffers inspects active channels only is the Tier A contract kani/verif_lib__c13.rs, props C13,C11)
     except (rp.ParseError, Undecided) as e:
         obs.append(ob("C11.lib.channel_frame", UNDECIDED, "lib.rs", str(e)))
     # shared FFT work buffers are fully overwritten per unit
@@ -240,17 +234,7 @@ def c11_stage(scratch, tier, log):
         rets = [n for n in rp.walk(body) if n[0] == "return"]
         obs.append(ob("C11.FftResampler.resample_unit.single_exit", FAILED if rets else DISCHARGED, "FftResampler::resample_unit",
                       "early return in resample_unit: the per-channel overlap may not be updated from this unit's transform" if rets else ""))
-        stm = [rp.show(st).replace(" ", "") for st in body[1]]
-        need = ["self.input_buf[0..self.fft_size_in].copy_from_slice(wave_in)",
-                "forvalinself.output_f[new_len..].iter_mut(){..}",
-                "self.output_f[0..new_len].copy_from_slice(&self.input_f[0..new_len])"]
-        missing = [n for n in need if n.replace(" ", "") not in stm]
-        # zero padding of the second half of input_buf
-        pad_ok = any("self.input_buf.iter_mut().skip(self.fft_size_in).take(self.fft_size_in)" in rp.show(st) for st in body[1])
-        okr = not missing and pad_ok
-        obs.append(ob("C11.FftResampler.resample_unit.work_buffers_fully_overwritten", DISCHARGED if okr else FAILED, "FftResampler::resample_unit",
-                      "" if okr else "the shared work buffers are no longer fully rewritten before each transform (missing: %s, padding cleared: %s): data "
-                                     "of the previously processed channel can leak" % (missing, pad_ok)))
+        # (that the shared work buffers are completely rewritten per unit is the Tier A contract kani/verif_synchro__unit.rs)
     except (rp.ParseError, Undecided) as e:
         obs.append(ob("C11.FftResampler.resample_unit", UNDECIDED, "resample_unit", str(e)))
     return obs
